@@ -8,7 +8,7 @@ SEED=$1; shift
 export GOFLAGS=-mod=mod GOPROXY=off GOSUMDB=off GOTOOLCHAIN=local
 WT=/tmp/vt.$$
 git -C /repo worktree add -q --detach $WT HEAD || exit 2
-cleanup() { git -C /repo worktree remove --force $WT 2>/dev/null; git -C /repo checkout -q -- . 2>/dev/null; }
+cleanup() { git -C /repo worktree remove --force $WT 2>/dev/null; }
 trap cleanup EXIT
 DEMO=$(head -1 $SEED/demo_test.go | grep -o 'v4/[A-Za-z0-9_/.-]*_test.go' | head -1)
 [ -z "$DEMO" ] && DEMO=v4/collection/seed_demo_test.go
@@ -25,14 +25,13 @@ cp $SEED/demo_test.go $WT/$DEMO
 ( cd $WT/v4 && timeout 300 go test -vet=off -count=1 $PKG 2>&1 | tail -15 ) > /tmp/seedtest.demo.$$ 2>&1
 grep -q "^ok" /tmp/seedtest.demo.$$ && echo "demo with change: PASS (demo does not show the bug)" || echo "demo with change: FAIL (as intended)"
 rm -f /tmp/seedtest.*.$$
-# now against /repo
-git -C /repo apply $SEED/patch.diff || { echo "patch does not apply to /repo"; exit 3; }
+# now the checks, against the scratch worktree with the change applied (VERIF_REPO), evidence/replays to a scratch dir
+rm -f $WT/$DEMO
+OUT=/tmp/seedout.$$; mkdir -p $OUT
 for id in "$@"; do
-  cd /verif && timeout 900 ./run.sh $id quick > /tmp/seedrun.$$ 2>&1; rc=$?
+  cd /verif && VERIF_REPO=$WT/v4 VERIF_OUT=$OUT timeout 1200 ./run.sh $id ${SEED_TIER:-quick} > /tmp/seedrun.$$ 2>&1; rc=$?
   echo "== check $id exit=$rc: $(grep -c '^VIOLATION' /tmp/seedrun.$$) violation signatures"
-  grep -A2 "signature:" /tmp/seedrun.$$ | cut -c1-220 | head -12
+  grep -A2 "signature:" /tmp/seedrun.$$ | cut -c1-240 | head -9
   tail -1 /tmp/seedrun.$$
 done
-rm -f /tmp/seedrun.$$
-git -C /repo checkout -q -- .
-git -C /repo status --short | head -3
+rm -rf /tmp/seedrun.$$ $OUT
